@@ -1,8 +1,8 @@
 (* C20 runner: one case per line, TAB-separated fields
      id  flags  text  oracle  root  ast
    root = `slo shi` (entity ids in [slo,shi] are signals) followed by entries `o id n f1..fn rb` (overloaded
-   subprogram with formals f1..fn, rb = 1 iff it returns BOOLEAN) and `p id m s` (parameter object: mode m = i|o|b,
-   s = 1 iff class signal); ast = `kwa kwb <sens> <stmts>` in the prefix token format written by harness/src/bin/c20.rs:
+   subprogram with formals f1..fn, rb = 1 iff it returns BOOLEAN) and `p id m s` (parameter object: mode m = i|o|b|u|l,
+   s = 1 iff class signal) and `t id m` (port of mode m); ast = `kwa kwb <sens> <stmts>` in the prefix token format written by harness/src/bin/c20.rs:
      expr  := L a b | D a b id | U a b | S a b <expr> <sd> | I a b <expr> n <expr>* | A a b <expr> k m <expr>?
             | C a b <expr> n <expr>* | N a b <expr> | B a b <expr> <expr> | G a b n <expr>* | Q a b <expr> | P a b <expr>
      sd    := d id | u                    (suffix designator with / without reference)
@@ -72,7 +72,7 @@ let wave () : waveform =
   | "u" -> None
   | "w" -> let n = int () in Some (times n (fun () -> let v = expr () in let a = opt expr in (v, a)))
   | t -> failwith ("bad wave token " ^ t)
-let mode () = match next () with "i" -> MIn | "o" -> MOut | _ -> MInOut
+let mode () = match next () with "i" -> MIn | "o" -> MOut | "u" -> MBuffer | "l" -> MLinkage | _ -> MInOut
 
 let rec stmt () : stmt =
   match next () with
@@ -125,6 +125,7 @@ let root_of_string (f : string) =
          tab := (id, KOverloaded (fs, rb)) :: !tab
        | "p" -> let id = num () in let m = mode () in let s = int () = 1 in
          tab := (id, KParam (m, s)) :: !tab
+       | "t" -> let id = num () in let m = mode () in tab := (id, KPort m) :: !tab
        | t -> failwith ("bad root token " ^ t))
     done;
     let r = root_tab slo shi (Stdlib.List.rev !tab) in
